@@ -209,6 +209,8 @@ impl Monitor {
             Host::Idle => {
                 if mosi & 0xC0 == 0x40 {
                     let cmd = mosi & 0x3F;
+                    // a host that starts a new frame has given up waiting for the answer to the previous one
+                    self.awaiting = None;
                     if (self.card_busy || (self.busy_phase && miso == 0x00)) && cmd != 0 && cmd != 12 {
                         self.bad("busy/command-while-card-signals-busy", format!("CMD{} frame started while the card holds the line low", cmd));
                     }
